@@ -65,6 +65,9 @@ fn server_received_a_message(
                 };
                 let e_id = *e_id;
                 let p_id = *p_id;
+                if world.get_entity(p_id).is_none() {
+                    return;
+                }
                 let Some(mut entity) = world.get_entity_mut(e_id) else {
                     return;
                 };
